@@ -119,7 +119,7 @@ class Prop:
             return
         evs = case["evs"]
         # drop TUN / MTU / roam events (handshake, shift, expire and down/up events carry the session structure)
-        free = [i for i, e in enumerate(evs) if e["k"] in ("tun", "mtu", "roam")]
+        free = [i for i, e in enumerate(evs) if e["k"] in ("tun", "tunf", "mtu", "roam")]
         chunk = max(len(free) // 2, 1)
         cnt = 0
         while chunk >= 1 and cnt < 60:
@@ -157,6 +157,17 @@ class Prop:
         pos = (case.get("_pos") or {}).get(str(f.get("kind")), f.get("pos", 0))
         k = evs[pos]["k"] if pos < len(evs) else "?"
         if pos < len(evs):
+            obs = evs[pos].get("obs") or []
+            if any(o["kind"] != 0 and o["peer"] == 0 for o in obs) or any(o["kind"] == 0 for o in obs):
+                return "datagram-opens-under-no-session:after-%s" % k
+            seen = set()
+            for e in evs[:pos + 1]:
+                for o in e.get("obs") or []:
+                    if o["kind"] == 4:
+                        key = (o["sess"], o["ctr"])
+                        if key in seen and e is evs[pos]:
+                            return "same-session-and-counter-twice:after-%s" % k
+                        seen.add(key)
             pkts = [base64.b64decode(p or "") for e in evs for p in (e.get("pkts") or [])]
             for o in evs[pos].get("obs") or []:
                 pl = base64.b64decode(o.get("plain") or "")
@@ -186,7 +197,7 @@ class Prop:
                "events": []}
         for e in c["evs"][:6]:
             d = {"k": e["k"]}
-            if e["k"] == "tun":
+            if e["k"] in ("tun", "tunf"):
                 d["pkt_lens"] = [len(base64.b64decode(p or "")) for p in (e.get("pkts") or [])][:8]
             else:
                 d.update({k: e[k] for k in ("peer", "mtu", "ep", "ridx") if k in e})
